@@ -138,3 +138,12 @@ package pattern
 //@   trusted
 //@   modifies nothing
 //@   ensures len(result0) > 0 ==> init <= result0[0].start && result0[0].start <= result0[0].end && result0[0].end <= len(s)
+
+// A range x-y in a set (manual §6.4.1) denotes the bytes between x and y in
+// ascending order: exactly those, and none when x > y.
+//@ func byteRange
+//@   prop C15
+//@   arith bv
+//@   modifies nothing
+//@   ensures forall(x, uint8, s.contains(x) == (a <= x && x <= b))
+//@   loop 1: invariant a <= i && (i <= b || a > b) && forall(x, uint8, s.contains(x) == (a <= x && x < i))
